@@ -18,6 +18,7 @@ mod rng;
 mod rwlock;
 mod robs_map;
 mod robs_set;
+mod rtc;
 mod transport;
 mod watch;
 
@@ -198,6 +199,8 @@ fn main() {
         "robs_set" => robs_set::run(seed, count, &extra, &mut out),
         "broadcast" => broadcast::run(seed, count, &extra, &mut out),
         "io" => io::run(seed, count, &extra, &mut out),
+        "rtc" => rtc::run(seed, count, &extra, &mut out),
+        "rtc_cancel" => rtc::run_cancel(seed, count, &extra, &mut out),
         "handle" => handle::run(seed, count, &extra, &mut out),
         "lazy" => lazy::run(seed, count, &extra, &mut out),
         "rwlock" => rwlock::run(seed, count, &extra, &mut out),
